@@ -396,7 +396,7 @@ func buildEnv(spec envSpec, extra map[string]string) []string {
 }
 
 func runReplica(tape, out string, spec envSpec) ([]Fingerprint, string, error) {
-	cmd := exec.Command(os.Args[0], "-test.run", "^TestC14$", "-test.timeout", "0")
+	cmd := exec.Command(os.Args[0], append([]string{"-test.run", "^TestC14$", "-test.timeout", "0"}, core.ChildCoverArgs()...)...)
 	cmd.Env = buildEnv(spec, map[string]string{"C14_CHILD": "replay", "C14_TAPE": tape, "C14_OUT": out})
 	if d := spec.env["C14_CWD"]; d != "" {
 		cmd.Dir = d
